@@ -108,6 +108,36 @@ def run_seed(pid: str, name: str, base: str) -> dict:
         shutil.rmtree(d, ignore_errors=True)
 
 
+def run_transform(pid: str, tname: str, base: str) -> dict:
+    """A whole-tree behaviour-preserving rewrite computed on the AST (sa/transforms.py): the check must stay silent."""
+    from .transforms import TRANSFORMS
+
+    d = tempfile.mkdtemp(prefix=f"sa-tr-{pid}-")
+    try:
+        shutil.copytree(os.path.join(base, "src"), os.path.join(d, "src"), ignore=shutil.ignore_patterns("__pycache__", "*.pyc", "*.so"))
+        n = 0
+        for dp, _dn, fns in os.walk(os.path.join(d, "src", "watchdog")):
+            for fn in fns:
+                if fn.endswith(".py"):
+                    p = os.path.join(dp, fn)
+                    src = open(p, encoding="utf-8").read()
+                    new = TRANSFORMS[tname](src)
+                    compile(new, p, "exec")
+                    if new != src:
+                        n += 1
+                    open(p, "w", encoding="utf-8").write(new)
+        env = dict(os.environ, VERIF_REPO=d, VERIF_EVIDENCE_DIR=os.path.join(d, "evidence"), VERIF_TIER="quick")
+        rr = subprocess.run(["/venv/bin/python", "-B", "-m", "sa.main", pid, "--tier", "quick"], cwd=VERIF, env=env, capture_output=True, text=True, timeout=900)
+        rules = sorted({l.strip().split(" @ ")[0] for l in rr.stdout.splitlines() if " @ " in l and l.strip().startswith(pid + "/")})
+        res = {"name": f"E whole-tree {tname} ({n} modules rewritten)", "expect": "silent", "rc": rr.returncode, "rules": rules}
+        res["status"] = "ok" if rr.returncode == 0 else "FALSE-ALARM"
+        if res["status"] != "ok":
+            res["output"] = (rr.stdout + rr.stderr)[-2500:]
+        return res
+    finally:
+        shutil.rmtree(d, ignore_errors=True)
+
+
 def seeds_for(pid: str) -> list[str]:
     out = []
     sd = os.path.join(VERIF, "seeded")
@@ -129,6 +159,9 @@ def run_matrix(pid: str, variants: list[dict], base: str = REPO, jobs: int = 16)
     with ThreadPoolExecutor(max_workers=jobs) as ex:
         futs = [ex.submit(run_variant, pid, v["name"], v["edits"], v["expect"], v.get("rule"), base) for v in variants]
         futs += [ex.submit(run_seed, pid, name, base) for name in seeds_for(pid)]
+        from .transforms import TRANSFORMS
+
+        futs += [ex.submit(run_transform, pid, t, base) for t in TRANSFORMS]
         return [f.result() for f in futs]
 
 
